@@ -131,7 +131,15 @@ def check_props(ctx, pid_dir, extra_targets=(), timeout=1500):
     files = glob.glob(os.path.join(COQ, pid_dir, "*.v")) + glob.glob(os.path.join(COQ, "Base", "*.v")) \
         + glob.glob(os.path.join(COQ, "Generated", "*.v"))
     problems = audit_sources(files)
-    rc, out = build(["%s/Props.vo" % pid_dir] + list(extra_targets), timeout=timeout, force=[props])
+    # two steps, so that nothing else is printed between "COQC Props.v" and its Print Assumptions
+    # output (with -j another target's output could interleave): first the extra targets, then
+    # Props.vo alone (everything else compiled in that invocation is one of its dependencies).
+    out0 = ""
+    if extra_targets:
+        rc0, out0 = build(list(extra_targets), timeout=timeout)
+    rc, out = build(["%s/Props.vo" % pid_dir], timeout=timeout, force=[props])
+    if extra_targets and rc0 != 0:
+        rc, out = rc0, out0 + "\n" + out
     rep = props_report(out, props) if rc == 0 else []
     if rc != 0:
         # find which theorem names exist, mark all undischarged
